@@ -31,6 +31,17 @@ def init_ops(cfg):
     return ops
 
 
+def variants(cfg, tier):
+    """initial states the history search starts from"""
+    v = [("synced", []),
+         # a copy-detected file (REP blocks, hashes inherited) whose stripes were never completed, then removed
+         ("copy-partly-synced-removed", [("cp", "d1", "dir/M", "d2", "dir/M"), ("cmd", "sync", "-B", "1"), ("rm", "d2", "dir/M")])]
+    if tier == "thorough":
+        v += [("copy-partly-synced", [("cp", "d1", "dir/M", "d2", "dir/M"), ("cmd", "sync", "-B", "1")]),
+              ("killed-after-parity", [("write", "d2", "B", 900, 0), ("cmd", "sync", "--test-kill-after-sync")])]
+    return v
+
+
 def alphabet(cfg, tier):
     ops = [("write", "d2", "B", 900, 0), ("rm", "d2", "X"), ("write", "d2", "Y", 900, 0), ("write", "d1", "A", 1800, 1),
            ("write", "d1", "A", 1000, 2), ("rm", "d1", "dir/M"), ("mv", "d1", "A", "d1", "dir/A2"),
@@ -253,7 +264,9 @@ def fix_oracle(L, c, res, before, flt, where, exempt=()):
             if reported:
                 if res.rc == 0:
                     v.append(dict(kind="unrecoverable-but-exit-0", where=where, file=rel))
-                if summ.get("error_unrecoverable", "0") == "0":
+                # the summary exists only when the run reached its end; a run that stops with a fatal diagnostic and a
+                # failing status after tagging the file has reported it explicitly enough
+                if "error_unrecoverable" in summ and summ["error_unrecoverable"] == "0":
                     v.append(dict(kind="unrecoverable-not-in-summary", where=where, file=rel))
             if not sel:
                 if before.get(rel) != after.get(rel) or (rel + ".unrecoverable") in after:
@@ -372,10 +385,14 @@ def run(ctx):
         def on_violation(v, hist, cfg=cfg):
             ctx.violation("C05/history/%s" % v["kind"], "%s in %s after %s" % (v["kind"], cfg.short(), v["where"]),
                           dict(cfg=cfg.describe(), history=hist, violation=v))
-        ex = X.Explorer(ctx, cfg, init_ops(cfg), alphabet(cfg, tier), step, depth, label=cfg.short(), seed=ctx.seed)
-        states = collect_all(ctx, ex, on_violation)
-        tot_states += ex.states
-        tot_trans += ex.transitions
+        states = []
+        for vname, vops in variants(cfg, tier):
+            ex = X.Explorer(ctx, cfg, init_ops(cfg) + vops, alphabet(cfg, tier), step, depth, label="%s/%s" % (cfg.short(), vname), seed=ctx.seed)
+            st = collect_all(ctx, ex, on_violation)
+            tot_states += ex.states
+            tot_trans += ex.transitions
+            known = {id(x) for x in states}
+            states += st
         # parity of the initial synced state = the "stale" parity
         L = X.materialize(cfg, states[0][0], ctx.seed)
         initial_parity = {}
